@@ -5,7 +5,6 @@ import (
 	"encoding/binary"
 	"encoding/hex"
 	"fmt"
-	"io"
 	"strings"
 
 	"cedarverif/harness/internal/orc"
@@ -135,7 +134,7 @@ func framingFinish(c *Ctx, w *sworld, label string, sent [][]byte, nontrivial bo
 				var d []byte
 				d, err = w.read("B", k)
 				got = append(got, d...)
-				if err == io.EOF { // end of this message: the reader need not know lengths in advance
+				if isEOM(err) { // end of this message: the reader need not know lengths in advance
 					err = nil
 					break
 				}
@@ -145,7 +144,7 @@ func framingFinish(c *Ctx, w *sworld, label string, sent [][]byte, nontrivial bo
 			}
 		}
 		if err != nil {
-			c.Violate(Violation{Property: "C01", Key: "C01:recv-rejects-accepted:" + modeOf(w) + ":" + errClass(err),
+			c.Violate(Violation{Property: "C01", Key: "C01:recv-rejects-accepted:" + modeOf(w) + ":" + errKind(err),
 				What: "a message the sender accepted was rejected by the cedar receiver", Ops: append([]string{}, w.ops...),
 				Expected: fmt.Sprintf("message %d of %d bytes delivered", i, len(m)), Observed: err.Error()})
 			break
@@ -413,6 +412,11 @@ func applyFault(stream []byte, frames []refcodec.Frame, f fault) []byte {
 			cp[f.i].Flag ^= 1
 		}
 		return join(cp)
+	case "setflag": // end flag of frame i rewritten to arg (2..10: values the receivers accept in a header; 11, 255: invalid)
+		if f.i < len(cp) {
+			cp[f.i].Flag = byte(f.arg)
+		}
+		return join(cp)
 	}
 	return stream
 }
@@ -452,13 +456,17 @@ func wireSpec(sent []sentFrame, base int, g refcodec.Frame) string {
 }
 
 func runTamper(c *Ctx) error {
-	c.Res.Rule = "honest AES-GCM transcripts (1–4 messages, single/multi-frame, either direction, with/without cleartext prelude) × single faults (every bit of the byte stream for the short transcripts; every frame dropped/duplicated/swapped/replayed/shortened/cut; IV stripped or shifted; forged frames of length 0,1,15,16,17,40 with either flag at every position; end-flag flips) + random 2–3-fault combinations; + reflection (the receiving endpoint's own protected frames fed back to it at any position, IV kept / stripped / the first frame's IV put in front, with no, different and byte-identical cleartext exchanged each way before the key); + transcripts whose nonce word passes 2^32 (streams restored from a crypto-state blob) with every frame dropped/duplicated/swapped/replayed; the harness is the on-path editor between two real keyed streams; distinct by (transcript, fault list); non-trivial = the tampered byte stream differs from the honest one"
+	c.Res.Rule = "honest AES-GCM transcripts (1–4 messages, single/multi-frame, either direction, with/without cleartext prelude) × single faults (every bit of the byte stream for the short transcripts; every frame dropped/duplicated/swapped/replayed/shortened/cut; IV stripped or shifted; forged frames of length 0,1,15,16,17,40 with either flag at every position; end-flag flips) + random 2–3-fault combinations; + reflection (the receiving endpoint's own protected frames fed back to it at any position, IV kept / stripped / the first frame's IV put in front, with no, different and byte-identical cleartext exchanged each way before the key); + transcripts whose nonce word passes 2^32 (streams restored from a crypto-state blob) with every frame dropped/duplicated/swapped/replayed; every fault presented to EVERY receive path (ReceiveCompleteMessage, Message.GetRemainingBytes, StartMessageRead/ReadMessageBytes/EndMessageRead, ReceiveFrame, GetSecret), end flags 0..10 and invalid ones rewritten/forged, transcripts of secrets (PutSecret/GetSecret with encryption switched off around them); the harness is the on-path editor between two real keyed streams; distinct by (transcript, fault list); non-trivial = the tampered byte stream differs from the honest one"
 	var cases []Case
 	nT := c.Pick(3, 10)
-	for t := 0; t < nT; t++ {
+	nS := c.Pick(1, 3) // transcripts of secrets (PutSecret with encryption switched off around them)
+	for t := 0; t < nT+nS; t++ {
 		seedMsgs := tamperTranscript(c, t)
+		if t >= nT {
+			seedMsgs = tamperSecretTranscript(c, t-nT)
+		}
 		// build the honest stream once to enumerate faults
-		probe := tamperRun(c, seedMsgs, nil, false, "recvc")
+		probe := tamperRun(c, seedMsgs, nil, false, tamperProbeAPI(seedMsgs))
 		honest, frames := probe.honest, probe.frames
 		var faults [][]fault
 		// every bit of short transcripts (quick: every byte, 2 bits; thorough: all 8)
@@ -486,19 +494,28 @@ func runTamper(c *Ctx) error {
 			for _, k := range []int{1, 15, 16, 17} {
 				faults = append(faults, []fault{{kind: "shorten", i: i, arg: k}})
 			}
+			// every other end-flag value a header may carry (2..10 pass the receivers' header check and
+			// mean "end of message" to readNextFrame / the typed layer), plus two invalid ones
+			for v := 2; v <= 11; v++ {
+				faults = append(faults, []fault{{kind: "setflag", i: i, arg: v}})
+			}
+			faults = append(faults, []fault{{kind: "setflag", i: i, arg: 255}})
 		}
 		for _, k := range []int{1, 4, 5, 16, 21} {
 			faults = append(faults, []fault{{kind: "cut", arg: k}})
 		}
 		faults = append(faults, []fault{{kind: "stripiv"}})
 		for pos := 0; pos <= len(frames); pos++ {
-			for fl := 0; fl < 2; fl++ {
+			for _, fl := range []int{0, 1, 2, 3, 4, 5, 6, 7, 8, 9, 10} {
 				for _, ln := range []int{0, 1, 15, 16, 17, 40} {
+					if fl >= 2 && ln != 0 && ln != 16 && !c.Thorough() {
+						continue
+					}
 					faults = append(faults, []fault{{kind: "forge", i: pos, j: fl, arg: ln}})
 				}
 			}
 		}
-		kinds := []string{"bitflip", "drop", "dup", "swap", "replay", "shorten", "forge", "flag", "cut"}
+		kinds := []string{"bitflip", "drop", "dup", "swap", "replay", "shorten", "forge", "flag", "cut", "setflag"}
 		for k := 0; k < c.Pick(100, 1500); k++ {
 			var fs []fault
 			for q := 0; q < 2+c.Rng.Intn(2); q++ {
@@ -509,19 +526,41 @@ func runTamper(c *Ctx) error {
 				}
 				if kd == "forge" {
 					f.j = c.Rng.Intn(2)
+					if c.Rng.Intn(3) == 0 {
+						f.j = 2 + c.Rng.Intn(9)
+					}
+				}
+				if kd == "setflag" {
+					f.arg = 2 + c.Rng.Intn(10)
 				}
 				fs = append(fs, f)
 			}
 			faults = append(faults, fs)
 		}
 		cases = append(cases, probe.cs)
+		if seedMsgs.secret {
+			// secrets are only readable through GetSecret (crypto is off on both ends around them)
+			for _, fs := range faults {
+				if fs[0].kind != "bitflip" || c.Rng.Intn(3) == 0 {
+					cases = append(cases, tamperRun(c, seedMsgs, fs, true, "getsecret").cs)
+				}
+			}
+			continue
+		}
+		for _, a := range tamperAPIs[1:] {
+			cases = append(cases, tamperRun(c, seedMsgs, nil, true, a).cs) // honest transcript through every API
+		}
 		for _, fs := range faults {
 			r := tamperRun(c, seedMsgs, fs, true, "recvc")
 			cases = append(cases, r.cs)
-			// the same fault seen through the typed layer (Message.GetRemainingBytes); frame-level faults only
-			if fs[0].kind != "bitflip" || c.Rng.Intn(8) == 0 {
-				r2 := tamperRun(c, seedMsgs, fs, true, "mrest")
-				cases = append(cases, r2.cs)
+			// the same fault seen through every other receive path: the typed layer
+			// (Message.GetRemainingBytes), the incremental API (StartMessageRead/ReadMessageBytes/
+			// EndMessageRead -> readNextFrame), plain ReceiveFrame (what GetFile uses) and GetSecret.
+			// All of them for frame-level faults; a sample of them for the (many) bit flips.
+			for _, a := range tamperAPIs[1:] {
+				if fs[0].kind != "bitflip" || c.Rng.Intn(8) == 0 {
+					cases = append(cases, tamperRun(c, seedMsgs, fs, true, a).cs)
+				}
 			}
 		}
 	}
@@ -685,7 +724,23 @@ type tamperSpec struct {
 	dirAB   bool
 	prelude int
 	wrap    bool       // both ends restored from a crypto-state blob whose base IV word is 2 below 2^32
+	secret  bool       // every message is one PutSecret, sent and read with encryption switched off on both ends
 	msgs    [][][]byte // message → frames
+}
+
+// the receive paths of a keyed stream the adversarial wire is presented to. Message level: recvc =
+// ReceiveCompleteMessage, mrest = Message.GetRemainingBytes (typed layer, ReadFrame), incr =
+// StartMessageRead + ReadMessageBytes* + EndMessageRead (readNextFrame). Frame level: recvp =
+// ReceiveFrame (what GetFile and GetSecret sit on), getsecret = GetSecret.
+var tamperAPIs = []string{"recvc", "mrest", "incr", "recvp", "getsecret"}
+
+func tamperFrameLevel(api string) bool { return api == "recvp" || api == "getsecret" }
+
+func tamperProbeAPI(sp tamperSpec) string {
+	if sp.secret {
+		return "getsecret"
+	}
+	return "recvc"
 }
 
 func tamperTranscript(c *Ctx, t int) tamperSpec {
@@ -699,11 +754,17 @@ func tamperTranscript(c *Ctx, t int) tamperSpec {
 		if t == 0 {
 			nf = 1
 		}
+		if t == 1 && i == nm-1 {
+			nf = 2 + c.Rng.Intn(2) // the last message of this transcript is multi-frame: losing its tail truncates a message
+		}
 		var fr [][]byte
 		for j := 0; j < nf; j++ {
 			n := c.Rng.Intn(12)
 			if t >= 3 && c.Rng.Intn(3) == 0 {
 				n = c.Rng.Intn(200)
+			}
+			if t == 1 && i == nm-1 && j == 0 {
+				n = 1 + c.Rng.Intn(11)
 			}
 			fr = append(fr, randBytes(c, n))
 		}
@@ -712,10 +773,31 @@ func tamperTranscript(c *Ctx, t int) tamperSpec {
 	return sp
 }
 
+func tamperSecretTranscript(c *Ctx, t int) tamperSpec {
+	sp := tamperSpec{dirAB: t%2 == 0, prelude: (t + 1) % 2, secret: true}
+	nm := 2 + c.Rng.Intn(3)
+	for i := 0; i < nm; i++ {
+		n := c.Rng.Intn(14)
+		if i == 1 {
+			n = 0 // the empty secret: one NUL on the wire
+		}
+		sp.msgs = append(sp.msgs, [][]byte{randBytes(c, n)})
+	}
+	return sp
+}
+
 type tamperResult struct {
 	cs     Case
 	honest []byte
 	frames []refcodec.Frame
+}
+
+// stripOneNul: what GetSecret does to a frame's payload
+func stripOneNul(b []byte) []byte {
+	if len(b) > 0 && b[len(b)-1] == 0 {
+		return b[:len(b)-1]
+	}
+	return b
 }
 
 func tamperRun(c *Ctx, sp tamperSpec, fs []fault, count bool, api string) tamperResult {
@@ -744,8 +826,14 @@ func tamperRun(c *Ctx, sp tamperSpec, fs []fault, count bool, api string) tamper
 		w.key("A", 9)
 		w.key("B", 9)
 	}
+	if sp.secret {
+		w.crypto("A", false)
+		w.crypto("B", false)
+	}
 	src := w.ep(from)
 	base := len(src.sent)
+	// what the sender's application sent, in the units the chosen API hands over: whole messages, or
+	// (ReceiveFrame / GetSecret: no end flag is returned) the payload of every frame
 	var msgs [][]byte
 	for _, m := range sp.msgs {
 		var whole []byte
@@ -754,10 +842,24 @@ func tamperRun(c *Ctx, sp tamperSpec, fs []fault, count bool, api string) tamper
 			if j == len(m)-1 {
 				fl = 1
 			}
-			_ = w.send(from, fl, fr)
+			if sp.secret {
+				_ = w.secret(from, fr)
+			} else {
+				_ = w.send(from, fl, fr)
+			}
 			whole = append(whole, fr...)
+			switch {
+			case api == "recvp":
+				msgs = append(msgs, fr)
+			case api == "getsecret" && sp.secret:
+				msgs = append(msgs, fr) // PutSecret appended the NUL GetSecret strips
+			case api == "getsecret":
+				msgs = append(msgs, stripOneNul(fr))
+			}
 		}
-		msgs = append(msgs, whole)
+		if !tamperFrameLevel(api) {
+			msgs = append(msgs, whole)
+		}
 	}
 	honest := append([]byte{}, w.pending[to]...)
 	frames, _ := refcodec.ParseFrames(honest)
@@ -776,32 +878,55 @@ func tamperRun(c *Ctx, sp tamperSpec, fs []fault, count bool, api string) tamper
 	w.pending[to] = nil
 	w.ep(to).c.Feed(tampered)
 	w.log(strings.TrimRight("wire "+to+" "+strings.Join(specs, " "), " "), "ok")
-	// first affected message: the message containing the first frame at which the wire deviates
+	// first affected unit: the message (frame, for the frame-level APIs) containing the first frame at
+	// which the wire deviates
 	firstBad := len(msgs)
 	if changed {
 		k := 0
 		for k < len(tf) && k < len(frames) && bytes.Equal(tf[k].Bytes(), frames[k].Bytes()) {
 			k++
 		}
-		// message index of frame k
-		idx, acc := 0, 0
-		for mi, m := range sp.msgs {
-			if k < acc+len(m) {
-				idx = mi
-				break
+		if tamperFrameLevel(api) {
+			firstBad = k
+		} else {
+			// message index of frame k
+			idx, acc := 0, 0
+			for mi, m := range sp.msgs {
+				if k < acc+len(m) {
+					idx = mi
+					break
+				}
+				acc += len(m)
+				idx = mi + 1
 			}
-			acc += len(m)
-			idx = mi + 1
+			firstBad = idx
 		}
-		firstBad = idx
 	}
 	var delivered [][]byte
 	for i := 0; i < len(msgs)+3; i++ {
 		var m []byte
 		var err error
-		if api == "mrest" {
+		switch api {
+		case "mrest":
 			m, err = w.mrest(to)
-		} else {
+		case "recvp":
+			m, err = w.recvp(to)
+		case "getsecret":
+			m, err = w.getsecret(to)
+		case "incr":
+			// the application neither knows the length in advance nor looks at anything but what the
+			// three calls return: bytes until end-of-message, then EndMessageRead must agree
+			err = w.startread(to)
+			for err == nil {
+				var d []byte
+				d, err = w.read(to, 1+c.Rng.Intn(40))
+				m = append(m, d...)
+				if isEOM(err) {
+					err = w.endread(to)
+					break
+				}
+			}
+		default:
 			m, err = w.recvc(to)
 		}
 		if err != nil {
@@ -810,19 +935,29 @@ func tamperRun(c *Ctx, sp tamperSpec, fs []fault, count bool, api string) tamper
 		delivered = append(delivered, m)
 	}
 	// property oracle C02: delivered is an exact prefix, and stops at or before the first affected message
+	unit := "message"
+	if tamperFrameLevel(api) {
+		unit = "frame"
+	}
 	bad := ""
 	if len(delivered) > len(msgs) {
-		bad = "extra message delivered"
+		bad = "extra " + unit + " delivered"
 	} else {
 		for i := range delivered {
 			if !bytes.Equal(delivered[i], msgs[i]) {
-				bad = fmt.Sprintf("message %d altered", i)
+				bad = fmt.Sprintf("%s %d altered", unit, i)
 				break
 			}
 		}
 	}
 	if bad == "" && len(delivered) > firstBad {
-		bad = fmt.Sprintf("message %d delivered although the wire was tampered with at or before it", firstBad)
+		bad = fmt.Sprintf("%s %d delivered although the wire was tampered with at or before it", unit, firstBad)
+	}
+	if bad == "" && !changed && len(delivered) != len(msgs) {
+		// not the adversary's doing: the honest transcript must arrive completely through every API (C01's
+		// claim; reported here because a receive path that fails closed on honest traffic makes the C02
+		// verdicts of that path vacuous)
+		bad = fmt.Sprintf("honest: only %d of %d %ss of an untouched transcript were delivered", len(delivered), len(msgs), unit)
 	}
 	if bad != "" {
 		var fk []string
@@ -830,7 +965,7 @@ func tamperRun(c *Ctx, sp tamperSpec, fs []fault, count bool, api string) tamper
 			fk = append(fk, f.kind)
 		}
 		c.Violate(Violation{Property: "C02", Key: "C02:" + api + ":" + strings.Join(fk, "+") + ":" + strings.SplitN(bad, " ", 2)[0],
-			What: bad, Ops: append([]string{}, w.ops...), Expected: fmt.Sprintf("a prefix of %d sent messages, at most %d of them", len(msgs), firstBad),
+			What: bad, Ops: append([]string{}, w.ops...), Expected: fmt.Sprintf("a prefix of %d sent %ss, at most %d of them", len(msgs), unit, firstBad),
 			Observed: fmt.Sprintf("%d delivered; faults=%v", len(delivered), fs)})
 	}
 	w.finish()
@@ -844,12 +979,15 @@ func tamperRun(c *Ctx, sp tamperSpec, fs []fault, count bool, api string) tamper
 		if len(fs) > 1 {
 			c.Count("multi-fault")
 		}
+		if sp.secret {
+			c.Count("secret-transcript")
+		}
 		c.Count(fmt.Sprintf("delivered:%d", len(delivered)))
 		if changed && c.Rng.Intn(400) == 0 {
 			c.Sample(map[string]any{"faults": fmt.Sprint(fs), "ops": abbreviate(w.ops), "real": abbreviate(w.real)})
 		}
 	}
-	return tamperResult{cs: Case{Label: fmt.Sprintf("tamper %v", fs), Ops: w.ops, Real: w.real}, honest: honest, frames: frames}
+	return tamperResult{cs: Case{Label: fmt.Sprintf("tamper %s %v", api, fs), Ops: w.ops, Real: w.real}, honest: honest, frames: frames}
 }
 
 /* ---------------------------------------------------------------- gcmformat (C12) */
